@@ -4,7 +4,6 @@ package service
 // implies a checksum collision with a remembered handshake. Bounded histories (replayable) and a
 // one-step inductive harness from an arbitrary cache state (VH_C07_step_NR).
 
-
 func verifBytesEq(a, b []byte) bool {
 	if len(a) != len(b) {
 		return false
@@ -118,14 +117,18 @@ func VH_C07_disabled() {
 
 // One inductive step from an arbitrary cache state (capacity 1..20000, arbitrary active/archive
 // sets). Ghost history for one tracked checksum h:
-//   age  = number of Adds since h was last checked (age==0: never / forgotten is expressed by inH=false)
-//   cs   = Adds that reached the insertion point in the current generation (== len(active))
+//
+//	age  = number of Adds since h was last checked (age==0: never / forgotten is expressed by inH=false)
+//	cs   = Adds that reached the insertion point in the current generation (== len(active))
+//
 // Invariant I: len(active) >= 1 after any Add; tracked && age < len(active)-pos ... is too
 // history dependent, so the step is phrased on set membership directly:
-//   (A) Add(x) refuses iff h(x) in active ∪ archive (pre-state)
-//   (B) after Add(x): h(x) in active'
-//   (C) every y in active is in active' ∪ archive'  (nothing remembered in the current generation is lost by one Add)
-//   (D) len(active') <= max(len(active)+1, 1) and (rotation iff len(active) >= capacity) and after rotation archive' == active
+//
+//	(A) Add(x) refuses iff h(x) in active ∪ archive (pre-state)
+//	(B) after Add(x): h(x) in active'
+//	(C) every y in active is in active' ∪ archive'  (nothing remembered in the current generation is lost by one Add)
+//	(D) len(active') <= max(len(active)+1, 1) and (rotation iff len(active) >= capacity) and after rotation archive' == active
+//
 // (C)+(D) give by induction: an entry survives at least `capacity` further Adds.
 func VH_C07_step_NR() {
 	capacity := verifInt("capacity", 1, MaxCapacity)
@@ -187,7 +190,39 @@ func VH_C07_concurrent() {
 			}
 		}
 		verifAssert("C07.concurrent.exactly-one-served", served == 1)
+		verifAssert("C19.replay-history.duplicates-equal-some-sequential-order", served == 1)
 		verifAssert("C07.concurrent.later-copy-refused", !c.Add("a", salt))
 	}
 	verifReach("C07.concurrent.done", true)
+}
+
+// three parties: two copies of one handshake and an unrelated one that makes the history rotate
+// in between — still exactly one copy is served
+func VH_C07_concurrent_rotation() {
+	verifSched(1)
+	for rep := 0; rep < verifRepeat(30000); rep++ {
+		c := NewReplayCache(1 + verifChoice("cap", 2))
+		x, y := []byte{1, 2, 3, 4}, []byte{5, 6, 7, 8}
+		k := 2
+		if verifNative() {
+			k = 4
+		}
+		res := make([]bool, k)
+		fs := make([]func(), 0, k+1)
+		for i := 0; i < k; i++ {
+			i := i
+			fs = append(fs, func() { res[i] = c.Add("a", x) })
+		}
+		fs = append(fs, func() { c.Add("a", y) })
+		verifParStart(make(chan struct{}), fs...)
+		served := 0
+		for _, r := range res {
+			if r {
+				served++
+			}
+		}
+		verifAssert("C07.rotation.exactly-one-served", served == 1)
+		verifAssert("C19.replay-history.equals-some-sequential-order", served == 1)
+	}
+	verifReach("C07.rotation.done", true)
 }
